@@ -567,7 +567,16 @@ pub fn make_request(rng: &mut Rng, proto: Proto, srv: Option<&[u8]>) -> (Vec<u8>
     let size = 1024 + 4 * rng.below(120) as usize;
     let pkt = match proto {
         Proto::Classic => req::classic_request(&nonce, size),
-        Proto::Ietf => req::ietf_request(&[DRAFT13], srv, &nonce, size),
+        Proto::Ietf => {
+            // mostly the plain list; one request in four offers other versions as well, draft-13
+            // anywhere among the first four entries (clients that speak several drafts do that)
+            let vers: Vec<u32> = match rng.below(8) {
+                0 => vec![0x8000_000b, DRAFT13],
+                1 => vec![1, 0x8000_000b, DRAFT13, 0x8000_000d],
+                _ => vec![DRAFT13],
+            };
+            req::ietf_request(&vers, srv, &nonce, size)
+        }
     };
     (pkt, nonce)
 }
